@@ -24,6 +24,8 @@
     `N · V` after every history; `leaf_visit_breaks_sum_counterexample` for the source as first read.
   * `advance_without_tree_restarts`, `first_advance_is_fresh`, `advance_defined_partial`, `…_counterexample`,
     `…_as_extracted` (fixes/C19-3): the advancing overload on a planner without a tree.
+  * `nodes_hold_particles`, `advance_promotes_existing_child` (MCTS / POMCP): every node below the root holds a particle, so
+    POMCP's "lost track of the belief" restart is dead code and an advance on an existing child always keeps the subtree.
   * `rup_replaces_value`: the datapoint a node passes upwards is the one that turns a mean of `N - 1` copies of the old
     node value into `N` copies of the new one.
 -/
@@ -197,6 +199,111 @@ theorem advance_before_first_call_as_extracted {m : Mdl} (a k : Nat) (parts : Li
 
 example : ∃ m : Mdl, m.advGuard = true ∧ (call m Tree.init (Op.adv 1 0 [0] 2 2 0) []).isSome = true :=
   ⟨{ exM with advGuard := true }, rfl, by decide⟩
+
+/-! ### Every node below the root holds a particle: the "lost track of the belief" restart of POMCP is dead code -/
+
+/-- below the root, a node that exists holds at least one particle (POMCP: `belief`; MCTS: the ghost list of states that
+    passed through it) -/
+def PNE (t : Tree) : Prop := ∀ q, q ≠ [] → t.ex q = true → t.parts q ≠ []
+
+theorem PNE.of_eq {t t1 : Tree} (h : PNE t) (e1 : t1.ex = t.ex) (e2 : t1.parts = t.parts) : PNE t1 := by
+  intro q hq hex; rw [e2]; rw [e1] at hex; exact h q hq hex
+
+theorem PNE.descend {m : Mdl} {H : Nat} {t t1 : Tree} {p : Path} {depth : Nat} {st : Step} {mode : Mode}
+    (hd : descend m H t p depth st = some (t1, mode)) (h : PNE t) : PNE t1 := by
+  obtain ⟨_, _, _, _, _, _, hshape, _, _⟩ := descend_spec hd
+  cases hshape with
+  | created hc e1 e2 _ _ _ =>
+    intro q hq hex
+    rw [e2]
+    by_cases hqc : q = p ++ [(st.a, m.key st)]
+    · simp [upd, hqc]
+    · rw [e1] at hex
+      simp only [upd, hqc, if_false] at hex ⊢
+      exact h q hq hex
+  | pushed hc e1 e2 _ =>
+    intro q hq hex
+    rw [e2]
+    by_cases hqc : q = p ++ [(st.a, m.key st)]
+    · simp [upd, hqc]
+    · rw [e1] at hex
+      simp only [upd, hqc, if_false]
+      exact h q hq hex
+  | untouched e _ _ => rw [e]; exact h
+
+theorem Sim.pne {m : Mdl} {H : Nat} {t t' : Tree} {p : Path} {s depth : Nat} {used : List Step} {r : Rat}
+    (h : Sim m H t p s depth used t' r) : PNE t → PNE t' := by
+  induction h with
+  | stop t p s depth st t1 _ _ _ hd =>
+    intro hI
+    exact (PNE.descend hd (hI.of_eq (t1 := t.incN p) rfl rfl)).of_eq rfl rfl
+  | roll t p s depth st t1 n used fr _ _ _ hd _ =>
+    intro hI
+    exact (PNE.descend hd (hI.of_eq (t1 := t.incN p) rfl rfl)).of_eq rfl rfl
+  | deeper t p s depth st t1 t2 used fr _ _ _ hd _ ih =>
+    intro hI
+    exact (ih (PNE.descend hd (hI.of_eq (t1 := t.incN p) rfl rfl))).of_eq rfl rfl
+
+theorem Sims.pne {m : Mdl} {H n : Nat} {t t' : Tree} {useds : List (List Step)} (h : Sims m H n t useds t') : PNE t → PNE t' := by
+  induction h with
+  | zero t => exact id
+  | succ n t t1 t2 s used r useds _ hS _ ih => exact fun hI => ih (hS.pne hI)
+
+theorem PNE.fresh (parts : List Nat) (nA b : Nat) : PNE (Tree.fresh parts nA b) := by
+  intro q hq hex
+  simp [Tree.fresh, hq] at hex
+
+theorem PNE.reroot {t : Tree} (h : PNE t) (k : Key) : PNE (t.reroot k) := fun q _ hex => h (k :: q) (by simp) hex
+
+theorem prepare_pne {m : Mdl} {t t0 : Tree} {op : Op} {H iters : Nat} (h : PNE t) (hp : prepare m t op = some (t0, H, iters)) : PNE t0 := by
+  cases op with
+  | fresh parts nA H' iters' =>
+    simp [prepare] at hp
+    obtain ⟨rfl, _, _⟩ := hp
+    exact PNE.fresh _ _ _
+  | adv a k parts nA H' iters' =>
+    rcases advance_keeps_subtree hp with ⟨_, hq⟩ | ⟨_, rfl⟩
+    · intro q hq0 hex
+      rw [(hq q).2.2.1]
+      rw [(hq q).1] at hex
+      exact h ((a, k) :: q) (by simp) hex
+    · exact PNE.fresh _ _ _
+
+theorem Reach.pne {m : Mdl} {t : Tree} (h : Reach m t) : PNE t := by
+  induction h with
+  | init => exact PNE.fresh [] 0 0
+  | call t t' op log rest _ hc ih =>
+    unfold AITB.Tree.call at hc
+    split at hc
+    · simp at hc
+    · rename_i t0 H iters hp
+      have h0 := prepare_pne ih hp
+      split at hc
+      · simp at hc; obtain ⟨rfl, _⟩ := hc; exact h0
+      · obtain ⟨useds, _, hS⟩ := runSims_sound m _ _ _ _ _ _ hc
+        exact hS.pne h0
+
+/-- **nodes_hold_particles.**  After any history of calls every node below the root holds at least one particle. -/
+theorem nodes_hold_particles {m : Mdl} {t : Tree} (h : Reach m t) (q : Path) (hq : q ≠ []) (hex : t.ex q = true) :
+    t.parts q ≠ [] := h.pne q hq hex
+
+/-- **advance_promotes_existing_child.**  On a reachable tree, `sampleAction(a, key, horizon)` with an action node `a` and an
+    existing `(a, key)` child *always* keeps exactly that subtree: POMCP's "lost track of the belief" restart
+    (`if ( ! graph_.belief.size() )`) is never taken. -/
+theorem advance_promotes_existing_child {m : Mdl} {t t0 : Tree} (h : Reach m t) {a k : Nat} {parts : List Nat}
+    {nA H iters H' iters' : Nat} (ha : a < t.nA []) (hex : t.ex [(a, k)] = true)
+    (hp : prepare m t (Op.adv a k parts nA H iters) = some (t0, H', iters')) :
+    ∀ q, t0.ex q = t.ex ((a, k) :: q) ∧ t0.nN q = t.nN ((a, k) :: q) ∧ t0.parts q = t.parts ((a, k) :: q) ∧
+      t0.aN q = t.aN ((a, k) :: q) ∧ t0.aV q = t.aV ((a, k) :: q) := by
+  rcases advance_keeps_subtree hp with ⟨_, hq⟩ | ⟨hno, _⟩
+  · intro q
+    exact ⟨(hq q).1, (hq q).2.1, (hq q).2.2.1, (hq q).2.2.2.1, (hq q).2.2.2.2.1⟩
+  · exfalso
+    rcases hno with h0 | h1 | ⟨_, h2⟩
+    · omega
+    · rw [hex] at h1; simp at h1
+    · exact nodes_hold_particles h [(a, k)] (by simp) hex h2
+
 
 end AITB.Tree
 
